@@ -171,6 +171,36 @@ theorem C16_rung_counts (P : Params) (hv : RungValid P) (es : List Ev) (j : Nat)
     have := L.above
     omega
 
+/-- **C16 (the compared value is the raw objective)** — `transform_objective` is the identity (the "maximum so
+far" replacement is not active): (1) by definition of the model, validated against the code on every run through
+`RunningJob.objective` / `stopper.observations`; (2) after `record(b, o)` the stopper's `objective`, `step` and
+`observations` show exactly `o`, `b` and the two histories extended by them; (3) at the `n+1`-th observation of a
+running job the decision rule of `stopped()` is applied to exactly the number `q` just recorded and the budget
+`n+1`, and at a decision budget the rung entry the competitors will read is that same `q` — not a function of
+the objectives observed at earlier budgets. -/
+theorem C16_objective_is_raw :
+    (∀ js o, transformObjective js o = o) ∧
+    (∀ (P : Params) (jr : JobRec) (b : Nat) (o : Obj),
+      (observeRec P jr b o).1.js.objective = some o ∧ (observeRec P jr b o).1.js.step = some b ∧
+      (observeRec P jr b o).1.js.observations = (jr.js.budgets ++ [b], jr.js.objs ++ [o])) ∧
+    (∀ (P : Params), RungValid P → ∀ (es : List Ev) (j : Nat) (jr : JobRec) (q : Rat),
+      (reach P es)[j]? = some jr → jr.halted = false → jr.js.objs.length + 1 < P.maxSteps →
+      ∃ jr2, (protoStep P (reach P es) (.step j (.num q))).2 =
+          some (decide' false P ((reach P es).set j jr2) jr2 (jr.js.objs.length + 1) q).2 ∧
+        jr2.js.rung = jr.js.rung ∧
+        (decTest P jr.js.rung (jr.js.objs.length + 1) = true →
+          jr.js.objs.length + 1 = decBudget P jr.js.rung ∧
+          mget (.rung jr.js.rung) jr2.md = some (.obj (.num q)))) := by
+  refine ⟨fun _ _ => rfl, ?_, ?_⟩
+  · intro P jr b o
+    obtain ⟨h1, h2⟩ := observeRec_lists P jr b o
+    simp [JS.objective, JS.step, JS.observations, h1, h2]
+  · intro P hv es j jr q hj hl hmax
+    have hlive := (reach_inv hv es j jr hj).1 hl
+    obtain ⟨jr2, hrung, _, hown, hstep⟩ := jobStep_num hv (reach P es) j jr q hlive hmax
+    refine ⟨jr2, ?_, hrung, fun ht => ⟨(decTest_iff hv hlive.below hlive.above).1 ht, hown ht⟩⟩
+    rw [protoStep_eq P _ j jr _ hj hl, hstep]
+
 /-! ## the best evaluation survives -/
 
 /-- **C16 (best survives)** — successive halving with `min_competing = 0` and median stopping with every
@@ -324,6 +354,90 @@ theorem C16_sha_topk (P : Params) (hv : RungValid P) (ms rf mesr mfc : Nat) (eps
             · rw [if_neg h0]; exact Nat.max_eq_right (Nat.pos_of_ne_zero h0)
           rw [this]; exact hcount
 
+/-! ## the verified checker run on the real traces -/
+
+theorem outsideTop_iff (rf : Nat) (l : List Rat) (q : Rat) : outsideTop rf l q = true ↔ OutsideTop rf l q := by
+  simp only [outsideTop, OutsideTop, decide_eq_true_eq]
+
+theorem evOK_iff (P : Params) (pre : List TEv) (e : TEv) : evOK P pre e = true ↔ EvSpec P pre e := by
+  constructor
+  · intro h
+    simp only [evOK, Bool.and_eq_true, decide_eq_true_eq] at h
+    obtain ⟨⟨h1, h2⟩, h3⟩ := h
+    refine ⟨h1, h2, ?_, ?_⟩
+    · intro hb hs hlt q hq
+      rw [hq] at h3
+      simp only [hs, hlt, and_self, if_true, Bool.and_eq_true, decide_eq_true_eq] at h3
+      have := h3.1 hb
+      simpa [List.any_eq_true] using this
+    · intro rf hrf hs hlt q hq
+      rw [hq] at h3
+      simp only [hs, hlt, and_self, if_true, Bool.and_eq_true, decide_eq_true_eq, hrf, Bool.or_eq_true,
+        outsideTop_iff] at h3
+      exact h3.2
+  · intro h
+    simp only [evOK, Bool.and_eq_true, decide_eq_true_eq]
+    refine ⟨⟨h.budget, h.failure⟩, ?_⟩
+    cases ho : e.obj with
+    | fail t => rfl
+    | num q =>
+      by_cases hs : e.stop = true
+      · by_cases hlt : e.step < P.maxSteps
+        · have hbest : P.bestApplies = true → ((othersAt pre e.job e.step).any fun v => decide (q < v)) = true := by
+            intro hb
+            obtain ⟨v, hv, hq⟩ := h.best hb hs hlt q ho
+            simp only [List.any_eq_true, decide_eq_true_eq]
+            exact ⟨v, hv, hq⟩
+          cases hrf : P.topkRf with
+          | none =>
+            simp only [hs, hlt, and_self, if_true, Bool.and_eq_true, decide_eq_true_eq, and_true]
+            exact hbest
+          | some rf =>
+            have := h.topk rf hrf hs hlt q ho
+            simp only [hs, hlt, and_self, if_true, Bool.and_eq_true, decide_eq_true_eq, Bool.or_eq_true, outsideTop_iff]
+            exact ⟨hbest, this⟩
+        · simp [hs, hlt]
+      · simp [hs]
+
+theorem checkFrom_iff (P : Params) : ∀ (rest pre : List TEv),
+    checkFrom P pre rest = true ↔ ∀ p e q, rest = p ++ e :: q → EvSpec P (pre ++ p) e := by
+  intro rest
+  induction rest with
+  | nil =>
+    intro pre
+    simp only [checkFrom, true_iff]
+    intro p e q h
+    cases p <;> simp at h
+  | cons x rest ih =>
+    intro pre
+    simp only [checkFrom, Bool.and_eq_true, evOK_iff, ih]
+    constructor
+    · rintro ⟨h0, h1⟩ p e q h
+      cases p with
+      | nil =>
+        simp only [List.nil_append, List.cons.injEq] at h
+        obtain ⟨rfl, _⟩ := h
+        simpa using h0
+      | cons y p =>
+        simp only [List.cons_append, List.cons.injEq] at h
+        obtain ⟨rfl, h⟩ := h
+        have := h1 p e q h
+        simpa [List.append_assoc] using this
+    · intro h
+      refine ⟨by simpa using h [] x rest rfl, ?_⟩
+      intro p e q hq
+      have := h (x :: p) e q (by simp [hq])
+      simpa [List.append_assoc] using this
+
+/-- **C16 (verified trace checker)** — the checker the driver runs on the traces of the real stoppers decides
+exactly the clauses budget / failure / best-survives / sha-topk of the property, stated over the trace alone. -/
+theorem C16_checker (P : Params) (t : List TEv) : checkStopTrace P t = true ↔ TraceSpec P t := by
+  unfold checkStopTrace TraceSpec
+  rw [checkFrom_iff]
+  constructor
+  · intro h pre e post ht; simpa using h pre e post ht
+  · intro h p e q ht; simpa using h p e q ht
+
 /-! ## non-vacuity, and the pre-fix witness -/
 
 /-- the witness of DESIGN §6-11 on the model of the **pre-fix** median rule (`legacy = true`):
@@ -335,6 +449,11 @@ def witnessEs : List Ev := [.add, .add, .step 0 (.num 0), .step 0 (.num 1), .ste
 example : (protoRunGen true witnessP [] witnessEs).2.getLast? = some (some (.ok true)) := by decide +kernel
 /-- … the repaired rule keeps it (regression example), as `C16_best_survives` says it must -/
 example : (protoRun witnessP [] witnessEs).2.getLast? = some (some (.ok false)) := by decide +kernel
+/-- the pre-fix witness as a trace: rejected by the verified checker; the repaired behaviour: accepted -/
+example : checkStopTrace witnessP [⟨0, 1, .num 0, false⟩, ⟨0, 2, .num 1, false⟩, ⟨0, 3, .num 2, false⟩, ⟨1, 1, .num 1, true⟩] = false := by
+  decide +kernel
+example : checkStopTrace witnessP [⟨0, 1, .num 0, false⟩, ⟨0, 2, .num 1, false⟩, ⟨0, 3, .num 2, false⟩, ⟨1, 1, .num 1, false⟩] = true := by
+  decide +kernel
 example : RungValid witnessP ∧ EpsNonneg witnessP ∧ NoBootstrap witnessP := by
   simp [RungValid, EpsNonneg, NoBootstrap, witnessP]
 
